@@ -62,9 +62,9 @@ theorem mutate_accepted {env : Env} {m : Method} {path : Bytes} {body : Body} {f
         · rfl
 
 theorem handleConfig_patch (env : Env) (p0 p : Bytes) (w : Json) (ifm : Bytes) (force : Bool) (s : State) :
-    handleConfig env ⟨.patch, p0, .val w, ifm, force, true⟩ p s =
+    handleConfig env ⟨.patch, p0, .val w, ifm, force, .json⟩ p s =
       ((change env .patch p (.val w) ifm force s).1, changeResp (change env .patch p (.val w) ifm force s).2) := by
-  simp [handleConfig, toMethod]
+  simp [handleConfig, toMethod, Req.ctJSON, CT.containsJSON]
 
 theorem handleConfig_get (env : Env) (r : Req) (p : Bytes) (s : State) (h : r.method = .get) :
     handleConfig env r p s =
